@@ -124,8 +124,14 @@ impl Case for C06Case {
         let n = w.recs.len();
         let store = build_store(w.lang, &w.recs, w.limit);
         let big = build_store(w.lang, &w.recs, n + 3);
+        // "depends only on that record and the query": not on what this thread searched before.
+        // A decoy store in another language is asked the same question first.
+        let decoy_lang = LANGS[(LANGS.iter().position(|l| *l == w.lang).unwrap_or(0) + 1 + (w.picks[0] as usize % 6)) % 7];
+        let decoy = build_store(decoy_lang, &w.recs[..n.min(8)], 10);
         for q in &w.queries {
+            let _ = search(&decoy, q);
             let hits = search(&store, q);
+            let _ = search(&decoy, q);
             let full = search(&big, q);
             let info = |x: String| format!("lang={} query={:?} limit={} n={} hits={:?} unlimited={:?} {}", w.lang, q, w.limit, n, hits.iter().map(|h| h.0).collect::<Vec<_>>(), full.iter().map(|h| h.0).collect::<Vec<_>>(), x);
             if hits.len() > w.limit {
@@ -334,9 +340,15 @@ pub struct C12Case {
     pub limit: usize,
     pub query: String,
     pub distinct: bool,
-    /// history variant: after the first search add these, search; then set this limit, search
-    pub more: Vec<Rec>,
-    pub limit2: Option<usize>,
+    /// history variant: steps applied after the first search (every Search is judged)
+    pub steps: Vec<Step>,
+}
+
+#[derive(Clone, Debug, Hash)]
+pub enum Step {
+    Add(Vec<Rec>),
+    Limit(usize),
+    Search,
 }
 
 fn variant(src: &mut Source, lang: &str, w: &str) -> String {
@@ -384,19 +396,35 @@ pub fn decode_c12(src: &mut Source) -> Box<dyn Case> {
     };
     let recs: Vec<Rec> = (0..nrec).map(|k| mk(src, k)).collect();
     let limit = src.below(nrec + 3);
-    let query = src.pick(&["", " ", "-", "' ", "\0", "+ -", "\u{301}", "  ", ".", "()"]).to_string();
-    let (more, limit2) = match src.weighted(&[3, 2, 1]) {
-        1 => {
-            let k = src.range(1, 6);
-            let more: Vec<Rec> = (0..k).map(|i| mk(src, nrec + i)).collect();
-            let l2 = if src.chance(2, 3) { Some(src.below(nrec + k + 3)) } else { None };
-            (more, l2)
+    let query = src.pick(&["", " ", "-", "' ", "\0", "+ -", "\u{301}", "  ", ".", "()", "¿", "«»", "€", "•", "“ ”", "°", "¡!", "\u{a0}", "…", "§"]).to_string();
+    // history: in half of the cases 1-5 further steps (adds, limit changes, searches in any order)
+    let mut steps: Vec<Step> = Vec::new();
+    if src.chance(1, 2) {
+        let mut added = 0usize;
+        let mut cur_limit = limit;
+        let nsteps = src.range(1, 5);
+        for _ in 0..nsteps {
+            match src.weighted(&[3, 3, 2]) {
+                0 => {
+                    // often exactly as many adds as the limit was raised by
+                    let k = if src.chance(1, 2) && cur_limit > limit && cur_limit - limit <= 6 { cur_limit - limit } else { src.range(1, 6) };
+                    let k = k.min(total - nrec - added.min(total - nrec));
+                    if k > 0 {
+                        let more: Vec<Rec> = (0..k).map(|i| mk(src, nrec + added + i)).collect();
+                        added += k;
+                        steps.push(Step::Add(more));
+                    }
+                }
+                1 => {
+                    cur_limit = src.below(nrec + added + 3);
+                    steps.push(Step::Limit(cur_limit));
+                }
+                _ => steps.push(Step::Search),
+            }
         }
-        // only the limit changes between two empty-query searches (no add in between)
-        2 => (Vec::new(), Some(src.below(nrec + 3))),
-        _ => (Vec::new(), None),
-    };
-    Box::new(C12Case { lang, recs, limit, query, distinct, more, limit2 })
+        steps.push(Step::Search);
+    }
+    Box::new(C12Case { lang, recs, limit, query, distinct, steps })
 }
 
 impl C12Case {
@@ -465,7 +493,11 @@ impl Case for C12Case {
     fn describe(&self) -> Value {
         json!({"lang": self.lang, "limit": self.limit, "query": show(&self.query), "distinct_ratings": self.distinct,
                "records": self.recs.iter().map(|(id, t, r)| json!([id, show(t), r])).collect::<Vec<_>>(),
-               "then_add": self.more.iter().map(|(id, t, r)| json!([id, show(t), r])).collect::<Vec<_>>(), "then_limit": self.limit2})
+               "then": self.steps.iter().map(|st| match st {
+                   Step::Add(v) => json!({"add": v.iter().map(|(id, t, r)| json!([id, show(t), r])).collect::<Vec<_>>()}),
+                   Step::Limit(l) => json!({"limit": l}),
+                   Step::Search => json!("search"),
+               }).collect::<Vec<_>>()})
     }
     fn key(&self) -> u64 {
         hash64(self)
@@ -475,28 +507,36 @@ impl Case for C12Case {
         store.highlight_with(("<<", ">>"));
         let hits = search(&store, &self.query);
         self.judge(ctx, "initial", &self.recs, self.limit, &hits)?;
-        if !self.more.is_empty() || self.limit2.is_some() {
+        if !self.steps.is_empty() {
             let mut recs = self.recs.clone();
-            for r in &self.more {
-                store.add(lucid_suggest_core::Record::new(r.0, &r.1, r.2, &store.lang));
-                recs.push(r.clone());
-            }
-            if !self.more.is_empty() {
-                let hits = search(&store, &self.query);
-                self.judge(ctx, "after-adds", &recs, self.limit, &hits)?;
-            }
-            if let Some(l2) = self.limit2 {
-                store.limit = l2;
-                let hits = search(&store, &self.query);
-                self.judge(ctx, "after-limit-change", &recs, l2, &hits)?;
-                ctx.label_if(l2 > self.limit, "limit-raised");
-                ctx.label_if(l2 < self.limit, "limit-lowered");
+            let mut limit = self.limit;
+            let mut k = 0;
+            for st in &self.steps {
+                match st {
+                    Step::Add(more) => {
+                        for r in more {
+                            store.add(lucid_suggest_core::Record::new(r.0, &r.1, r.2, &store.lang));
+                            recs.push(r.clone());
+                        }
+                    }
+                    Step::Limit(l) => {
+                        ctx.label_if(*l > limit, "limit-raised");
+                        ctx.label_if(*l < limit, "limit-lowered");
+                        store.limit = *l;
+                        limit = *l;
+                    }
+                    Step::Search => {
+                        k += 1;
+                        let hits = search(&store, &self.query);
+                        self.judge(ctx, if k == 1 { "history-search-1" } else { "history-search-n" }, &recs, limit, &hits)?;
+                    }
+                }
             }
             ctx.label("history-variant");
             ctx.nontrivial();
         }
         ctx.label_if(self.recs.is_empty(), "empty-store");
-        ctx.label_if(self.more.is_empty() && self.limit2.is_some(), "limit-change-only");
+        ctx.label_if(self.steps.iter().any(|x| matches!(x, Step::Limit(_))) && !self.steps.iter().any(|x| matches!(x, Step::Add(_))), "limit-change-only");
         ctx.label_if(self.recs.iter().any(|r| !r.1.chars().any(|c| c.is_alphanumeric())), "wordless-title");
         ctx.label_if(self.limit == 0, "limit-0");
         Ok(())
